@@ -53,7 +53,9 @@ Theorem C06_complete_ok : forall md5 hex u s b k id req u1 s1 et,
     ints_sorted (map fst req) = true /\
     Forall2 (fun r p => 0 <= fst r /\ nth_error (up_parts mpu) (Z.to_nat (fst r)) = Some (Some p)) req ps /\
     et = complete_etag md5 hex ps /\
-    (exists v sv, get_object s1 b k = OObj v sv /\ vd_body v = flat_map pt_body ps /\ vd_meta v = up_meta mpu) /\
+    (exists v sv, get_object s1 b k = OObj v sv /\ vd_body v = flat_map pt_body ps /\
+                 vd_meta v = carry_meta s b k (up_meta mpu) /\
+                 (forall kv, In kv (up_meta mpu) -> In kv (vd_meta v))) /\
     get_upload u1 b k id = None /\
     (forall b' k' id', id' <> id -> get_upload u1 b' k' id' = get_upload u b' k' id').
 Proof. exact complete_ok. Qed.
